@@ -3,6 +3,7 @@ import Zrnt.Gen.SszFacts
 import Proofs.Lemmas.SSZSchemaLegal
 import Proofs.Lemmas.SSZPolyNF
 import Proofs.Lemmas.SSZDenote
+import Proofs.Lemmas.SSZLeaf
 /-!
 # C04 — SSZ encoding round-trips, agrees with declared lengths, and malformed input is refused
 
@@ -273,6 +274,13 @@ theorem checkType_sound_list (H : Hash2) (c : Config) (hpos : ∀ k, 0 < c k) (h
   exact ⟨⟨encode (.list (elem.eval c) (lim.eval c)), decode (.list (elem.eval c) (lim.eval c)), b,
       (Ty.list (elem.eval c) (lim.eval c)).fixedLen, htr H (.list (elem.eval c) (lim.eval c))⟩,
     by simp only [denoteList, e1, e2, e3, e4, e5], rfl, rfl, fun v hw => ⟨rfl, hb v hw, rfl⟩⟩
+
+/-- **`common.ReadBitList`** (the bespoke bitlist reader of `AttestationBits.Deserialize`, with ztyp's
+`BitlistCheck`): its model accepts exactly the byte strings the specification's `Bitlist[limit]` decoder accepts —
+in particular a full-length bitlist whose limit is a multiple of 8 (`limit/8 + 1` bytes), which ztyp's own
+`DecodingReader.BitList` refused. The model is also printed as the `model` column of mode `ssz` for bitlist types. -/
+theorem readBitList_eq_decode (lim : Nat) (bs : Bytes) : goReadBitList lim bs = (decode (.bitlist lim) bs).isSome :=
+  goReadBitList_eq_decode lim bs
 
 /-! ## Non-vacuity: the hypotheses are satisfiable, and the refusals are real -/
 
